@@ -727,6 +727,9 @@ DEFINE_TEXTS = [
     "%define base one\n%define base two\nu $base\n",          # rejected: conflicting redefinition
     "%define base one\nu $base\n%define Base one\n<s>\n  u $BASE\n</s>\n",   # accepted: same value again
     "%define a x\n%define b $a\n%define b x\nu $b\n",
+    # wave 6: definitions without a value (the empty string), referred to and written again
+    "%define e\n%define Pre a$e\nu [$e]\nu ${pre}b\n<s>\n  u $E\n</s>\n%define e\n",
+    "%define e\nu x${e}y\n%define e z\n",                    # rejected: conflicting redefinition of an empty value
 ]
 
 
